@@ -410,8 +410,8 @@ Fixpoint inst_aux (tm : list tstmt) (d : prop_decl) (ts : list string) (vb : lis
                   SInline next ("validator:" ++ v) ASame vb' :: inst_aux r d ts vb nx
       | None => inst_aux r d ts vb next
       end
-  | TAssignNodeValue :: r => SMutate next ("self." ++ p_hidden d ++ ".value") :: inst_aux r d ts vb next
-  | TSetattr :: r => SMutate next ("self." ++ p_hidden d) :: inst_aux r d ts vb next
+  | TAssignNodeValue :: r => SMutate next ("self." ++ p_hidden d ++ ".value") :: inst_aux r d ts vb (S next)
+  | TSetattr :: r => SMutate next ("self." ++ p_hidden d) :: inst_aux r d ts vb (S next)
   end.
 
 (* declared types as the C14 IR sees them; "@self" stands for the class of the instance *)
